@@ -173,6 +173,7 @@ func (c *Conn) readClientHello(ctx context.Context) (*clientHelloMsg, *echServer
 	if len(clientHello.supportedVersions) == 0 {
 		clientVersions = supportedVersionsFromMax(clientHello.vers)
 	}
+	clientVersions = verifServerVersions(c, clientHello, clientVersions)
 	c.vers, ok = c.config.mutualVersion(roleServer, clientVersions)
 	if !ok {
 		c.sendAlert(alertProtocolVersion)
@@ -242,6 +243,8 @@ func (hs *serverHandshakeState) processClientHello() error {
 		c.sendAlert(alertInternalError)
 		return err
 	}
+
+	verifCanary(hs)
 
 	if len(hs.clientHello.secureRenegotiation) != 0 {
 		c.sendAlert(alertHandshakeFailure)
